@@ -48,6 +48,10 @@ M = [
  ("C06-dpa-sent-for-invalid-dpr-only", "bromelia/statemachine.py", "        if self.processor.is_valid_disconnect_peer(msg=self.msg):\n            dpa = self.processor.create_answer(msg=self.msg)", "        if not self.processor.is_valid_disconnect_peer(msg=self.msg):\n            dpa = self.processor.create_answer(msg=self.msg)", ["C06", "C07"]),
  ("C06-closing-ignores-peer-disconnect", "bromelia/statemachine.py", "        self.set_closing_state(set_name=True)\n\n        if self.is_set_release_signal_from_peer():\n            self.set_closed_state()\n            return\n", "        self.set_closing_state(set_name=True)\n", ["C06", "C08"]),
  ("C12-experimental-popped-instead", "bromelia/bromelia.py", "            answer.pop(\"result_code_avp\")", "            answer.pop(\"experimental_result_avp\")", ["C12"]),
+ # --- third batch: state shared between node objects (visible only with two nodes in one process)
+ ("C05-send-queue-shared-by-all-nodes", "bromelia/setup.py", "        self._send_messages = queue.Queue()\n", "        if getattr(DiameterAssociation, '_shared_send', None) is None:\n            DiameterAssociation._shared_send = queue.Queue()\n        self._send_messages = DiameterAssociation._shared_send\n", ["C05"]),
+ ("C08-stop-flag-shared-by-all-transports", "bromelia/transport.py", "class TcpConnection():\n", "class TcpConnection():\n    _stop_event = threading.Event()\n\n    @property\n    def _stop_threads(self):\n        return self._stop_event.is_set()\n\n    @_stop_threads.setter\n    def _stop_threads(self, value):\n        if value:\n            self._stop_event.set()\n        else:\n            self._stop_event.clear()\n\n", ["C08"]),
+ ("C04-recv-queue-shared-by-all-nodes", "bromelia/setup.py", "        self._recv_messages = queue.Queue()\n", "        if getattr(DiameterAssociation, '_shared_recv', None) is None:\n            DiameterAssociation._shared_recv = queue.Queue()\n        self._recv_messages = DiameterAssociation._shared_recv\n", ["C04"]),
 ]
 
 def main():
